@@ -85,7 +85,7 @@ class Check:
             self.seed = int(os.environ.get('VERIF_SEED', '1'))
         except ValueError:
             self.seed = 1
-        self.rng = random.Random(self.seed * 1000003 + int(pid[1:]))
+        self._rngs = {}
         self.tmp = tempfile.mkdtemp(prefix='lbzverif-%s-' % pid)
         atexit.register(lambda: shutil.rmtree(self.tmp, ignore_errors=True))
         self.violations = []
@@ -104,6 +104,19 @@ class Check:
         with open(os.path.join(VERIF, 'known_findings.json')) as f:
             self.known = json.load(f)
         self.quick = self.tier == 'quick'
+
+    @property
+    def rng(self):
+        """One PRNG per thread, each derived from VERIF_SEED (and the thread
+        name for library threads), so that a run replays exactly."""
+        import threading
+        import zlib
+        name = threading.current_thread().name
+        if name not in self._rngs:
+            salt = 0 if name == 'MainThread' else zlib.crc32(name.encode())
+            self._rngs[name] = random.Random(
+                self.seed * 1000003 + int(self.pid[1:]) + salt * 7919)
+        return self._rngs[name]
 
     # ------------------------------------------------------------------ log
     def log(self, *a):
